@@ -20,10 +20,17 @@ try:
         files = subprocess.run('git -C /repo diff --name-only', shell=True, capture_output=True, text=True).stdout.split()
         out = {}
         try:
-            for p in sorted(registry.PROPS):
+            def one(p):
                 c = subprocess.run([V + '/check', p], capture_output=True, text=True)
                 lines = [l for l in c.stdout.split('\n') if l.startswith('UNDECIDED') or l.startswith('VIOLATION') or 'failed obligation' in l]
-                out[p] = {'exit': c.returncode, 'lines': lines[:4]}
+                return p, {'exit': c.returncode, 'lines': lines[:4]}
+            # the float-kernel checks (4 min of CBMC each) are skipped when the change cannot reach them
+            props = [p for p in sorted(registry.PROPS)
+                     if not (p in ('C11',) and not any(f.startswith(('src/spaces', 'src/distance', 'src/unaligned_vector')) for f in files))]
+            from concurrent.futures import ThreadPoolExecutor
+            with ThreadPoolExecutor(4) as ex:
+                for p, o in ex.map(one, props):
+                    out[p] = o
         finally:
             subprocess.run('git -C /repo checkout -- .', shell=True)
         res[name] = {'files': files, 'checks': out}
